@@ -283,7 +283,10 @@ impl Report {
 
 /// Run `f`, catching a panic (unwind). Returns Err(message) on panic.
 pub fn catch<T>(f: impl FnOnce() -> T) -> Result<T, String> {
-    match std::panic::catch_unwind(std::panic::AssertUnwindSafe(f)) {
+    IN_CATCH.with(|c| c.set(true));
+    let r = std::panic::catch_unwind(std::panic::AssertUnwindSafe(f));
+    IN_CATCH.with(|c| c.set(false));
+    match r {
         Ok(v) => Ok(v),
         Err(e) => {
             let msg = if let Some(s) = e.downcast_ref::<&str>() {
@@ -302,11 +305,16 @@ pub fn catch<T>(f: impl FnOnce() -> T) -> Result<T, String> {
 pub fn quiet_panics() {
     std::panic::set_hook(Box::new(|info| {
         let loc = info.location().map(|l| format!("{}:{}", l.file(), l.line())).unwrap_or_default();
+        if !IN_CATCH.with(|c| c.get()) {
+            // a panic of the harness itself: be loud
+            eprintln!("HARNESS PANIC at {}: {}", loc, info);
+        }
         LAST_PANIC_LOC.with(|c| *c.borrow_mut() = loc);
     }));
 }
 
 thread_local! {
+    static IN_CATCH: std::cell::Cell<bool> = const { std::cell::Cell::new(false) };
     pub static LAST_PANIC_LOC: std::cell::RefCell<String> = const { std::cell::RefCell::new(String::new()) };
 }
 
